@@ -1327,7 +1327,7 @@ class TupleParser:
         array_size = attrl.get('ARRAYSIZE', None)
         if array_size is not None:
             # Issue #1044: Clarify if hex support is needed.
-            array_size = int(array_size)
+            array_size = self.unpack_arraysize(array_size, tup_tree)
 
         scopes = None
         value = None
@@ -1521,7 +1521,7 @@ class TupleParser:
         array_size = attrl.get('ARRAYSIZE', None)
         if array_size is not None:
             # Issue #1044: Clarify if hex support is needed.
-            array_size = int(array_size)
+            array_size = self.unpack_arraysize(array_size, tup_tree)
 
         embedded_object = False
         if 'EmbeddedObject' in attrl or 'EMBEDDEDOBJECT' in attrl:
@@ -1728,7 +1728,7 @@ class TupleParser:
         array_size = attrl.get('ARRAYSIZE', None)
         if array_size is not None:
             # Issue #1044: Clarify if hex support is needed
-            array_size = int(array_size)
+            array_size = self.unpack_arraysize(array_size, tup_tree)
 
         qualifiers = self.list_of_matching(tup_tree, ('QUALIFIER',))
 
@@ -1767,7 +1767,7 @@ class TupleParser:
         array_size = attrl.get('ARRAYSIZE', None)
         if array_size is not None:
             # Issue #1044: Clarify if hex support is needed
-            array_size = int(array_size)
+            array_size = self.unpack_arraysize(array_size, tup_tree)
 
         qualifiers = self.list_of_matching(tup_tree, ('QUALIFIER',))
 
@@ -2446,6 +2446,20 @@ class TupleParser:
         raise CIMXMLParseError(
             _format("Invalid CIM type found: {0!A}", cimtype),
             conn_id=self.conn_id)
+
+    def unpack_arraysize(self, data, tup_tree):
+        """
+        Unpack the string value of an ARRAYSIZE attribute and return it as an
+        integer.
+        """
+        try:
+            return int(data)
+        except ValueError:
+            raise CIMXMLParseError(
+                _format("Element {0!A} has an invalid value {1!A} for its "
+                        "'ARRAYSIZE' attribute (must be an integer number)",
+                        name(tup_tree), data),
+                conn_id=self.conn_id)
 
     def unpack_boolean(self, data):
         """
